@@ -419,6 +419,26 @@ def check(F, rep, tier):
     for g_, bi, c in unl:
         rep.bad("R13.8", "recursion-limit-off:" + g_.path.replace("crate::", "").rsplit("::", 1)[-1], "%s parses input with %s: a deeply nested document (e.g. 100k '[' in vars.custom on stdin) overflows the stack and aborts instead of failing with an error" % (g_.path.rsplit("::", 1)[-1], c.rsplit("::", 2)[-2] + "::" + c.rsplit("::", 1)[-1]), "%s bb%d line %s" % (g_.where(), bi, g_.blocks[bi]["line"]))
     if not unl: rep.ok("R13.8", "no reachable parser call switches its recursion limit off (ron / serde_json defaults are kept)", nontrivial_key="reclimit")
+    # ---- R13.10 no allocation sized by a number taken from the input (capacity overflow / allocation failure abort the process) ----------
+    nal = 0
+    for p_ in sorted(reach):
+        g_ = F.fn(p_)
+        if g_ is None or "::tests" in p_ or "test_utils" in p_ or "::_::" in p_: continue
+        for bi, t in g_.calls():
+            c = mir.callee(t) or ""
+            last = c.rsplit("::", 1)[-1]
+            if last not in ("with_capacity", "reserve", "reserve_exact", "repeat", "from_elem", "resize", "try_reserve") or not t[2]: continue
+            a = t[2][1] if last == "resize" and len(t[2]) > 1 else (t[2][-1] if last in ("from_elem", "repeat", "reserve", "reserve_exact") else t[2][0])
+            nal += 1
+            site = "%s bb%d line %s" % (g_.where(), bi, g_.blocks[bi]["line"])
+            e = panics.describe_len(g_, a)
+            def lenish(x): return x[0] in ("len", "const") or (x[0] in ("min", "max") and any(lenish(y) for y in x[1])) or (x[0] == "sub" and lenish(x[1]))
+            if lenish(e): rep.ok("R13.10", "%s sized by a constant or an existing collection's length" % last, sample=site, nontrivial_key="alloc%s%d" % (p_, bi)); continue
+            srcs = sorted({(mir.callee(g_.blocks[int(d_)]["t"]) or "?").rsplit("::", 1)[-1] for k_, d_ in mir.deep_origins(g_, a, stop=()) if k_ == "call" and d_.isdigit() and g_.blocks[int(d_)]["t"][0] == "call"})
+            if any(x in ("as_u64", "as_i64", "as_f64", "parse", "get", "unwrap_or") for x in srcs):
+                rep.bad("R13.10", "input-sized-allocation:" + p_.replace("crate::", "").rsplit("::", 1)[-1], "%s allocates with %s(n) where n comes from the input (%s): a huge number (`length=99999999999`) aborts the process with an allocation failure / capacity overflow instead of an error" % (p_.rsplit("::", 1)[-1], last, srcs[:4]), site)
+            else: rep.undecided("R13.10", "allocation-size:" + p_.replace("crate::", "").rsplit("::", 1)[-1], "%s(n) with n from %s" % (last, srcs[:4]), site)
+    if not nal: rep.ok("R13.10", "no reachable function pre-sizes an allocation (with_capacity / reserve / repeat / vec![x; n] / resize): sizes follow the data", nontrivial_key="noalloc")
     # ---- R13.9 std APIs that panic on non-UTF-8 input from the operating system --------------------------------------------------------
     # (`std::env::args()` / `vars()` yield Strings and panic during iteration when an argument / variable is not valid Unicode; the
     # panic is inside std, so the inventory of local panic sites does not contain it)
